@@ -16,7 +16,8 @@ PROPS = {
         rapid("race", "TestC12", dict(shards=4, checks=2), dict(shards=4, checks=10, timeout=7200), race=True, tiers=["thorough"]),
     ]),
     "C11": dict(pkg="net", level="exploration", stages=[
-        rapid("rapid", "TestC11", dict(shards=16, checks=3, timeout=1200), dict(shards=16, checks=40, timeout=7200)),
+        direct("lies", "TestC11Lies", quick=dict(shards=16, timeout=1200), thorough=dict(shards=16, timeout=3600)),
+        rapid("rapid", "TestC11", dict(shards=16, checks=4, timeout=1200), dict(shards=16, checks=40, timeout=7200)),
         rapid("race", "TestC11", dict(shards=4, checks=2), dict(shards=4, checks=10, timeout=7200), race=True, tiers=["thorough"]),
     ]),
 }
